@@ -240,10 +240,11 @@ func (w *world) probes() []probeRes {
 		r.Ms = time.Since(t0).Milliseconds()
 		return r
 	}
-	// the block path first, alone (later probes move the validator's height window)
-	res[0] = runOne(probes[0], probeBound)
+	// the block path first, alone (later probes move the validator's height window). When it does not answer within
+	// 15 s the cause is diagnosed by experiment (a well-formed block at the top of the height range); otherwise the
+	// probe goes on until the bound.
+	res[0] = runOne(probes[0], 15*time.Second)
 	if !res[0].OK {
-		// diagnosis by experiment: a well-formed block at the top of the height range
 		top := pf{name: "diag", f: func(try int) (bool, string) {
 			b, _ := mk(1, 0)
 			b.Height = 1<<63 - 1 - int64(try)
@@ -256,6 +257,11 @@ func (w *world) probes() []probeRes {
 		if d := runOne(top, 20*time.Second); d.OK {
 			res[0].Detail = "height-window: a well-formed block of height 2^63-1-k IS processed, blocks of ordinary heights are rejected as history"
 			res[0].Name += ":height-window-poisoned"
+		} else {
+			r2 := runOne(probes[0], probeBound-35*time.Second)
+			r2.Tries += res[0].Tries
+			r2.Ms += res[0].Ms + d.Ms
+			res[0] = r2
 		}
 	}
 	var wg sync.WaitGroup
